@@ -24,6 +24,8 @@ fn seed_alphabet() -> Vec<Argv> {
             // one millisecond from its deadline: whatever moves the executor's clock, however little, removes it
             "SET {k} a PX 1",
             "SET {k} 1.5",
+            // a float close to the largest finite one: an increment can push it over
+            "SET {k} 1.7e308",
             "RPUSH {k} a",
             "RPUSH {k} a b",
             "SADD {k} a",
